@@ -21,5 +21,6 @@ func main() {
 	if r.Replayed() {
 		return
 	}
-	dh.Generate(r, 1, []int{2}, 1)
+	dh.Corpus(r)
+	dh.Generate(r, 2, []int{2}, 3)
 }
